@@ -404,7 +404,17 @@ def gen_interrupts(rng, programs, roles, mode, max_n):
     est = {"line": 40000, "cold": 600, "step": 1500, "none": 0}[mode]
     if est == 0:
         return faults
+    # sometimes the interrupt hits the ADMIN side: a settings change / preset load broken off half-way (what is left is a
+    # legal state - every slot still holds a unit - and everything after it must behave accordingly)
+    adm = [(ti, i, op) for ti, p in enumerate(programs) if roles.get(str(ti)) == "admin"
+           for i, op in enumerate(p) if op.get("op") in ("set_units", "preset", "defaults", "basic_config", "gstep")]
+    if adm and mode != "none" and rng.random() < 0.35:
+        ti, i, op = adm[rng.randrange(len(adm))]
+        faults.append({"kind": "interrupt", "task": ti, "op": i, "at": rng.randint(1, 120 if op["op"] in ("preset", "basic_config") else 25),
+                       "exc": "MemoryError" if rng.random() < 0.25 else "SimInterrupt"})
     for ti, i, op in cands[:max_n]:
+        if rng.random() < 0.4 and op["op"] in ("fire", "zero", "elev", "powder"):
+            programs[ti].append(dict(op))          # ... and the interrupted operation is RETRIED later on the same objects
         if op["op"] in ("mk", "new_calc", "powder"):
             at = rng.randint(1, 60 if mode != "step" else 1)
         elif rng.random() < 0.5:
